@@ -490,12 +490,12 @@ func TestVerif_C22(t *testing.T) {
 		var labels [][]string
 		g := kit.G{T: rt}
 		o := kit.DefaultCorpus
-		o.MaxDocs = 8
+		o.MaxDocs = 10
 		c := c22Case{matchCase: genMatchCase(rt, o, kit.DefaultQuery, &labels)}
 		c.Queries = append(c.Queries, kit.QSpec{Op: "substr", Pat: kit.Pick(g, []string{"foo", "a", "o", "e", "needle"}, "broad"), Content: true})
 		c.Queries = append(c.Queries, kit.QSpec{Op: "regex", Pat: kit.Pick(g, []string{"[a-z]+", "o+", "\\w\\w"}, "broadre"), Content: true, CS: true})
-		c.MaxDocs = kit.Pick(g, []int{0, 1, 2, 3, 5}, "maxdocs")
-		c.MaxMatches = kit.Pick(g, []int{0, 1, 2, 3, 4, 7}, "maxmatches")
+		c.MaxDocs = kit.Pick(g, []int{0, 1, 2, 3, 4, 5, 6}, "maxdocs")
+		c.MaxMatches = kit.Pick(g, []int{0, 0, 1, 2, 3, 4, 7, 12}, "maxmatches")
 		if c.MaxDocs == 0 && c.MaxMatches == 0 {
 			c.MaxMatches = 2
 		}
